@@ -260,5 +260,11 @@ fn vmp_apply_dft_to_dft_core<const OVERWRITE: bool, REIM>(
         }
     }
 
-    REIM::reim_zero(&mut res[col_max * n..]);
+    if OVERWRITE {
+        // With a limb offset only `col_max - limb_offset` columns receive a product: the
+        // following ones must be cleared too, the destination may be uninitialised scratch.
+        REIM::reim_zero(&mut res[(col_max - limb_offset) * n..]);
+    } else {
+        REIM::reim_zero(&mut res[col_max * n..]);
+    }
 }
